@@ -52,6 +52,7 @@ def run(prog, chk):
     C17.depth_pairing(prog, chk)  # forward references are placed by retrying: a depth count leaked by a deferred attempt turns a valid chain into a limit error
     from props import geomalg
     geomalg.check_sites(prog, chk, "C09")
+    geomalg.check_float_truncation(prog, chk)  # no float is cut down to an integer on the way (a truncated distance / coordinate makes different candidates tie)
     geomalg.check(prog, chk, "C09", floor=47)
     from props import strops
     strops.check_for(prog, chk, "C09")  # A14.str-ops: how this property's strings are cut up is a reviewed, frozen inventory
